@@ -57,6 +57,7 @@ enum { F_NULL, F_IDENT, F_XOR, F_NEEDMORE };
 static int g_type, g_filt, g_opts, g_depth, g_tls;     /* g_tls: 0 none, 1 openssl, 2 mbedtls */
 static const char *g_tname = "pair";
 static int g_final = 1, g_big = 60000;
+static int g_bpol = 0, g_bwm = 0;      /* initial reader policy and high read mark of end B (-P bpol=, -P bwm=): shortens histories */
 
 #define PATLEN (1u << 20)
 static unsigned char *pat[2];           /* pat[e][i] = byte i of the stream that arrives AT end e */
@@ -107,8 +108,8 @@ static int loop_cbs, loop_broke, in_loop;
 static int listener_fd = -1, listener_port, refused_port, accepted_fd = -1;
 static int connect_state;                 /* 0 none, 1 started ok-target, 2 started refused-target */
 
-enum { P_ALL, P_ONE, P_LEAVE, P_FREE_SELF_RD, P_FREE_PEER_RD, P_FREE_SELF_EV, P_FREE_SELF_WR, P_NPOL };
-static const char *polname[] = { "all", "one", "leave", "freeself@rd", "freepeer@rd", "freeself@ev", "freeself@wr" };
+enum { P_ALL, P_ONE, P_LEAVE, P_FREE_SELF_RD, P_FREE_PEER_RD, P_FREE_SELF_EV, P_FREE_SELF_WR, P_CLEAR_SELF_RD, P_NPOL };
+static const char *polname[] = { "all", "one", "leave", "freeself@rd", "freepeer@rd", "freeself@ev", "freeself@wr", "clearself@rd" };
 
 #define KEY(buf, fmt, ...) char buf[160]; snprintf(buf, sizeof buf, fmt, __VA_ARGS__)
 static int g_prop = 17;
@@ -396,6 +397,9 @@ static void readcb(struct bufferevent *bev, void *arg)
 	case P_ONE: take = len ? 1 : 0; break;
 	case P_LEAVE: take = 0; break;
 	case P_FREE_SELF_RD: free_end(c); return;
+	case P_CLEAR_SELF_RD:
+		/* bufferevent_setcb(NULL...) from the first callback of a (deferred) batch: nothing may follow */
+		bufferevent_setcb(bev, NULL, NULL, NULL, NULL); c->cleared = 1; MC_COUNT("c19_clear_inside_callback"); return;
 	case P_FREE_PEER_RD: take = len; break;
 	default: take = len; break;
 	}
@@ -489,8 +493,12 @@ static void eventcb(struct bufferevent *bev, short what, void *arg)
 	if (what & BEV_EVENT_EOF) {
 		MC_COUNT("c19_eof_seen");
 		if (what & BEV_EVENT_READING) {
-			if (++c->n_eof_r > 1) { KEY(k, "C19/eof-twice/%s/after-%s", tname(), c->since_eof ? c->since_eof : "nothing");
-				mc_fail(k, "end %d: EOF|READING reported %d times (application did not enable reading again in between)", c->id, c->n_eof_r); }
+			if (++c->n_eof_r > 1) {
+				/* C19 "EOF at most once per direction" and C17 "end-of-file ... at most once": same monitor, both keys */
+				KEY(k, "C19/eof-twice/%s/after-%s", tname(), c->since_eof ? c->since_eof : "nothing");
+				mc_fail(k, "end %d: EOF|READING reported %d times (application did not enable reading again in between)", c->id, c->n_eof_r);
+				KEY(k2, "C17/eof-twice/%s/after-%s", tname(), c->since_eof ? c->since_eof : "nothing");
+				mc_fail(k2, "end %d: EOF|READING reported %d times (application did not enable reading again in between)", c->id, c->n_eof_r); }
 			c->since_eof = NULL;
 			/* C17: EOF only after every byte written before the shutdown is delivered (buffered or consumed) */
 			MC_COUNT("c17_eof_checked");
@@ -522,9 +530,9 @@ static void eventcb(struct bufferevent *bev, short what, void *arg)
 		if ((g_type == T_SOCK || g_tls) && (p->freed || p->wr_closed || c->wr_closed)) legit = 1;
 		if (g_type == T_CONNECT) legit = 1;
 		if (!legit) { KEY(k, "C17/spurious-error/%s", tname()); mc_fail(k, "end %d: ERROR event 0x%x (errno %d) on a healthy transport", c->id, what, EVUTIL_SOCKET_ERROR()); }
-		if (what & BEV_EVENT_READING) { if (++c->n_err_r > 1) { KEY(k, "C19/error-twice/%s", tname()); mc_fail(k, "end %d: ERROR|READING %d times", c->id, c->n_err_r); } }
-		else if (what & BEV_EVENT_WRITING) { if (++c->n_err_w > 1) { KEY(k, "C19/error-twice/%s", tname()); mc_fail(k, "end %d: ERROR|WRITING %d times", c->id, c->n_err_w); } }
-		else { if (++c->n_err_plain > 1) { KEY(k, "C19/error-twice/%s", tname()); mc_fail(k, "end %d: ERROR (connect) %d times", c->id, c->n_err_plain); } }
+		if (what & BEV_EVENT_READING) { if (++c->n_err_r > 1) { KEY(k, "C19/error-twice/%s", tname()); mc_fail(k, "end %d: ERROR|READING %d times", c->id, c->n_err_r); KEY(k2, "C17/error-twice/%s", tname()); mc_fail(k2, "end %d: ERROR|READING %d times", c->id, c->n_err_r); } }
+		else if (what & BEV_EVENT_WRITING) { if (++c->n_err_w > 1) { KEY(k, "C19/error-twice/%s", tname()); mc_fail(k, "end %d: ERROR|WRITING %d times", c->id, c->n_err_w); KEY(k2, "C17/error-twice/%s", tname()); mc_fail(k2, "end %d: ERROR|WRITING %d times", c->id, c->n_err_w); } }
+		else { if (++c->n_err_plain > 1) { KEY(k, "C19/error-twice/%s", tname()); mc_fail(k, "end %d: ERROR (connect) %d times", c->id, c->n_err_plain); KEY(k2, "C17/error-twice/%s", tname()); mc_fail(k2, "end %d: ERROR (connect) %d times", c->id, c->n_err_plain); } }
 		if (g_type == T_CONNECT && connect_state == 2 && c->n_connected) { KEY(k, "C19/connected-on-refusal/%s", tname()); mc_fail(k, "CONNECTED and ERROR on a refused connect"); }
 	}
 	if (c->policy == P_FREE_SELF_EV) free_end(c);
@@ -610,6 +618,10 @@ static int setup(void)
 		for (int i = 0; i < E[e].nstack; i++) if (!E[e].stack[i]) { mc_fail("harness:construct", "bufferevent construction failed"); return -1; }
 		setup_end(&E[e]);
 	}
+	if (!E[1].freed && g_type != T_CONNECT) {
+		E[1].policy = g_bpol;
+		if (g_bwm) bufferevent_setwatermark(E[1].bev, EV_READ, 0, g_bwm);
+	}
 	return 0;
 }
 
@@ -657,6 +669,8 @@ static void build_alphabet(const char *g)
 	case 'x': for (int e = 0; e < nends; e++) addop(OP_FREE, e, 0, 0); break;
 	case 'X': for (int e = 0; e < nends; e++) { addop(OP_POLICY, e, P_FREE_SELF_RD, 0); addop(OP_POLICY, e, P_FREE_SELF_EV, 0); addop(OP_POLICY, e, P_FREE_SELF_WR, 0); if (nends == 2) addop(OP_POLICY, e, P_FREE_PEER_RD, 0); } break;
 	case 'c': for (int e = 0; e < nends; e++) addop(OP_CLEAR, e, 0, 0); break;
+	case 'Y': addop(OP_POLICY, nends - 1, P_CLEAR_SELF_RD, 0); break;                /* B (connect: A) clears its callbacks inside its read callback */
+	case 'M': addop(OP_WRITE, 0, 3, 0); addop(OP_WRITE, 0, 4096, 0); break;
 	case 's': if (g_type == T_SOCK || g_tls) for (int e = 0; e < 2; e++) addop(OP_SHUTWR, e, 0, 0); break;
 	case 'S': if (g_type == T_SOCK || g_tls) addop(OP_SHUTWR, 0, 0, 0); break;
 	case 'C': if (g_type == T_CONNECT) { addop(OP_CONNECT_OK, 0, 0, 0); addop(OP_CONNECT_REFUSED, 0, 0, 0); addop(OP_PEER_SEND, 0, 3, 0); addop(OP_PEER_CLOSE, 0, 0, 0); } break;
@@ -1171,6 +1185,8 @@ int main(int argc, char **argv)
 		else if (!strncmp(a, "depth=", 6)) g_depth = atoi(a + 6);
 		else if (!strncmp(a, "final=", 6)) g_final = atoi(a + 6);
 		else if (!strncmp(a, "big=", 4)) g_big = atoi(a + 4);
+		else if (!strncmp(a, "bwm=", 4)) g_bwm = atoi(a + 4);
+		else if (!strncmp(a, "bpol=", 5)) g_bpol = !strcmp(a + 5, "one") ? P_ONE : !strcmp(a + 5, "leave") ? P_LEAVE : P_ALL;
 		else if (!strncmp(a, "prune=", 6)) g_prune = atoi(a + 6);
 	}
 	if (!g_depth) g_depth = 4;
